@@ -453,9 +453,17 @@ type history struct {
 	failedBefore    map[int]bool
 	otherDocBefore  map[int]map[int]bool
 	kept            []keptResult
+	trees           []keptTree
 	invalidParses   int
 	validAfterBad   int
 	interesting     bool
+}
+
+// keptTree: a tree the long-lived Parser returned earlier, and how it looked then.
+type keptTree struct {
+	node jp.ASTNode
+	dump string
+	expr string
 }
 
 type keptResult struct {
@@ -490,6 +498,11 @@ func (h *history) apply(a []string) (violation, expected, got string) {
 	switch a[0] {
 	case "compile":
 		c, err, pan := libCompile(a[1])
+		if pan == nil && err != nil {
+			if _, lst, _ := ref.Lex(a[1]); lst == ref.LexOutOfDomain {
+				return "", "", "" // an implementation limit (an integer beyond int64): refusing is allowed, nothing joins the pool
+			}
+		}
 		if pan != nil || err != nil {
 			return "Compile failed on a sentence: " + a[1], "", fmt.Sprint(err, pan)
 		}
@@ -586,11 +599,13 @@ func (h *history) apply(a []string) (violation, expected, got string) {
 	case "parse":
 		var d1, d2 string
 		var e1, e2 error
+		var n1 jp.ASTNode
 		p1 := safely(func() {
 			n, err := h.parser.Parse(a[1])
 			e1 = err
 			if err == nil {
 				d1 = jp.VerifDumpAST(n)
+				n1 = n
 			}
 		})
 		p2 := safely(func() {
@@ -616,6 +631,16 @@ func (h *history) apply(a []string) (violation, expected, got string) {
 			if e1.Error() != e2.Error() || !reflect.DeepEqual(e1, e2) {
 				return "a reused Parser reports a different error than a fresh Parser", fmt.Sprintf("%#v", e2), fmt.Sprintf("%#v", e1)
 			}
+		}
+		// what the Parser returned earlier belongs to the caller: using the Parser again must not change it
+		for _, k := range h.trees {
+			var now string
+			if pan := safely(func() { now = jp.VerifDumpAST(k.node) }); pan != nil || now != k.dump {
+				return "a tree returned by an earlier Parse on the reused Parser changed when the Parser was used again (earlier expression: " + k.expr + ")", k.dump, now
+			}
+		}
+		if e1 == nil && len(h.trees) < 8 {
+			h.trees = append(h.trees, keptTree{n1, d1, a[1]})
 		}
 	}
 	return "", "", ""
@@ -687,7 +712,9 @@ func TestC13(t *testing.T) {
 				return genExpr(t, docv, f)
 			}
 		}
-		do("compile", genE(t))
+		for len(h.exprs) == 0 { // (an expression the library may refuse, an integer beyond int64, does not join the pool)
+			do("compile", genE(t))
+		}
 		t.Repeat(map[string]func(*rapid.T){
 			"compile": func(t *rapid.T) {
 				if len(h.exprs) >= 6 {
